@@ -178,37 +178,75 @@ theorem dedupGo_fids (seen : List Nat) (s : List (Nat × Frame)) :
         · exact hnot
         · exact fun h => ih2 x hx (List.mem_cons_of_mem _ h)
 
-theorem keyLe_trans (a b c : Nat × Frame) : keyLe a b = true → keyLe b c = true → keyLe a c = true := by
-  simp only [keyLe, decide_eq_true_eq]; omega
+theorem mem_insertKey (x z : Nat × Frame) (l : List (Nat × Frame)) : z ∈ insertKey x l ↔ z = x ∨ z ∈ l := by
+  induction l with
+  | nil => simp [insertKey]
+  | cons y ys ih =>
+    unfold insertKey
+    split
+    · simp
+    · simp only [List.mem_cons, ih]
+      constructor
+      · rintro (h | h | h)
+        · exact Or.inr (Or.inl h)
+        · exact Or.inl h
+        · exact Or.inr (Or.inr h)
+      · rintro (h | h | h)
+        · exact Or.inr (Or.inl h)
+        · exact Or.inl h
+        · exact Or.inr (Or.inr h)
 
-theorem keyLe_total (a b : Nat × Frame) : (keyLe a b || keyLe b a) = true := by
-  simp only [keyLe, Bool.or_eq_true, decide_eq_true_eq]; omega
+theorem mem_sortKeys (z : Nat × Frame) (l : List (Nat × Frame)) : z ∈ sortKeys l ↔ z ∈ l := by
+  induction l with
+  | nil => simp [sortKeys]
+  | cons x xs ih => simp [sortKeys, mem_insertKey, ih]
 
-theorem sorted_mergeSort_keyLe (l : List (Nat × Frame)) :
-    (l.mergeSort keyLe).Pairwise (fun a b => a.1 ≤ b.1) := by
-  have := List.pairwise_mergeSort keyLe_trans keyLe_total l
-  exact this.imp (fun h => by simpa [keyLe] using h)
+theorem sorted_insertKey (x : Nat × Frame) {l : List (Nat × Frame)} (h : l.Pairwise (fun a b => a.1 ≤ b.1)) :
+    (insertKey x l).Pairwise (fun a b => a.1 ≤ b.1) := by
+  induction l with
+  | nil => simp [insertKey]
+  | cons y ys ih =>
+    have hy := List.pairwise_cons.mp h
+    unfold insertKey
+    split
+    · rename_i hle
+      refine List.pairwise_cons.mpr ⟨?_, h⟩
+      intro z hz
+      rcases List.mem_cons.mp hz with rfl | hz
+      · exact hle
+      · exact Nat.le_trans hle (hy.1 z hz)
+    · rename_i hnle
+      refine List.pairwise_cons.mpr ⟨?_, ih hy.2⟩
+      intro z hz
+      rcases (mem_insertKey x z ys).mp hz with rfl | hz
+      · omega
+      · exact hy.1 z hz
 
-theorem consistent_mergeSort {l : List (Nat × Frame)} (h : Consistent l) : Consistent (l.mergeSort keyLe) :=
-  fun x hx y hy => h x (List.mem_mergeSort.mp hx) y (List.mem_mergeSort.mp hy)
+theorem sorted_sortKeys (l : List (Nat × Frame)) : (sortKeys l).Pairwise (fun a b => a.1 ≤ b.1) := by
+  induction l with
+  | nil => simp [sortKeys]
+  | cons x xs ih => exact sorted_insertKey x ih
+
+theorem consistent_sortKeys {l : List (Nat × Frame)} (h : Consistent l) : Consistent (sortKeys l) :=
+  fun x hx y hy => h x ((mem_sortKeys x l).mp hx) y ((mem_sortKeys y l).mp hy)
 
 /-- `sorted(...)` + the `seen_frames` loop keeps exactly the smallest index of every frame object. -/
 theorem mem_sortDedup {l : List (Nat × Frame)} (hc : Consistent l) (x : Nat × Frame) :
     x ∈ sortDedup l ↔ x ∈ l ∧ ∀ y ∈ l, y.2.fid = x.2.fid → x.1 ≤ y.1 := by
   unfold sortDedup
-  rw [mem_dedupGo (sorted_mergeSort_keyLe l) (consistent_mergeSort hc)]
-  simp [List.mem_mergeSort]
+  rw [mem_dedupGo (sorted_sortKeys l) (consistent_sortKeys hc)]
+  simp [mem_sortKeys]
 
 theorem sortDedup_fids (l : List (Nat × Frame)) :
     (sortDedup l).Pairwise (fun a b => a.2.fid ≠ b.2.fid) := (dedupGo_fids [] _).1
 
 theorem sortDedup_lt {l : List (Nat × Frame)} (hc : Consistent l) :
     (sortDedup l).Pairwise (fun a b => a.1 < b.1) := by
-  have hsub : (sortDedup l).Sublist (l.mergeSort keyLe) := dedupGo_sublist [] _
-  have hle := (sorted_mergeSort_keyLe l).sublist hsub
+  have hsub : (sortDedup l).Sublist (sortKeys l) := dedupGo_sublist [] _
+  have hle := (sorted_sortKeys l).sublist hsub
   have hf := sortDedup_fids l
   have hcons : ∀ a ∈ sortDedup l, ∀ b ∈ sortDedup l, a.1 = b.1 → a.2 = b.2 := fun a ha b hb =>
-    consistent_mergeSort hc a (hsub.subset ha) b (hsub.subset hb)
+    consistent_sortKeys hc a (hsub.subset ha) b (hsub.subset hb)
   have := hle.and hf
   refine List.Pairwise.imp_of_mem ?_ this
   intro a b ha hb ⟨h1, h2⟩
